@@ -462,6 +462,12 @@ func (x *runner) call(ci int) bool {
 	dchk := x.dPrecondition(cd, before)
 	primBefore := x.provOf(x.cl.Primary())
 	nWitBefore := len(x.cl.Witnesses())
+	var witsBefore []*prov
+	for _, w := range x.cl.Witnesses() {
+		if q := x.provOf(w); q != nil {
+			witsBefore = append(witsBefore, q)
+		}
+	}
 	x.roles = x.rolesNow()
 	selfWitness := false
 	for _, w := range x.cl.Witnesses() {
@@ -773,6 +779,14 @@ func (x *runner) call(ci int) bool {
 		}
 	}
 
+	// (D') forward lunatic: an honest witness that is BEHIND the primary's header presented, during the
+	// call, a block at a lower height whose time is not before the time of the primary's header, and can
+	// back that block from the common trusted block.  Block time strictly increases with height, so this
+	// contradicts the primary's header: attack error, nothing stored, evidence naming the primary's block
+	// handed to a witness.  (The primary cannot be shown a conflicting block of its own height here, so
+	// evidence to the primary is not demanded.)  The precondition is read off the provider log.
+	x.fwdLunatic(ci, cd, before, win, fresh, err, primBefore, witsBefore, s0)
+
 	// (E) bookkeeping: misbehaving witnesses and nothing stored
 	misbehaved := nErr > 0 || nGarb > 0
 	if misbehaved && len(fresh) == 0 {
@@ -798,4 +812,111 @@ func (x *runner) call(ci int) bool {
 		k.Sample(x.witness(ci, map[string]interface{}{"result": class, "stored": len(fresh)}, s0))
 	}
 	return nReplies > 0 && (misbehaved || len(provsSeen) >= 2 || len(fresh) > 0)
+}
+
+func (x *runner) fwdLunatic(ci int, cd callDesc, before map[int64]*types.LightBlock, win []logEnt, fresh []*types.LightBlock,
+	err error, P *prov, wits []*prov, s0 int) {
+	k, sc := x.k, x.sc
+	if P == nil || !P.reliable || x.provOf(x.cl.Primary()) != P {
+		return
+	}
+	th := cd.Height
+	if cd.Op == "update" {
+		th = P.desc.Tip
+	}
+	if th < 1 || th > P.desc.Tip {
+		return
+	}
+	if _, ok := before[th]; ok {
+		return
+	}
+	var t0 int64
+	for h := range before {
+		if h < th && h > t0 {
+			t0 = h
+		}
+	}
+	pb := P.view(th)
+	if t0 == 0 || pb == nil {
+		return
+	}
+	L0 := before[t0]
+	tf := pb.Time
+	for _, W := range wits {
+		if W.desc.Kind != "lagging" || len(W.desc.Rules) > 0 || W.desc.Low > 1 {
+			continue
+		}
+		w0 := W.view(t0)
+		if w0 == nil || string(w0.Hash()) != string(L0.Hash()) {
+			continue
+		}
+		// what the witness did in this call: "too high" for the target, then its latest block(s)
+		sawTooHigh := false
+		var heads []logEnt
+		for _, e := range win {
+			if e.Kind != "reply" || e.Prov != W.desc.ID {
+				continue
+			}
+			if e.Asked == th && e.lb == nil && e.Err == provider.ErrHeightTooHigh.Error() {
+				sawTooHigh = true
+			}
+			if sawTooHigh && e.Asked == 0 && e.lb != nil {
+				heads = append(heads, e)
+			}
+		}
+		if len(heads) == 0 {
+			continue
+		}
+		var proof *logEnt
+		switch {
+		case heads[0].Height >= th:
+		case !heads[0].lb.Time.Before(tf):
+			proof = &heads[0]
+		case len(heads) > 1 && heads[1].Height < th && !heads[1].lb.Time.Before(tf):
+			proof = &heads[1]
+		}
+		rel := "behind(head time before the forged time)"
+		if proof != nil {
+			rel = "contradicts(head time after the forged time)"
+			if proof.lb.Time.Equal(tf) {
+				rel = "contradicts(head time equal to the forged time)"
+			}
+		}
+		k.Count("fwdlunatic."+rel+"."+errClass(err), 1)
+		if proof == nil || proof.Height <= t0 || !x.o.adjacentValid(W.view, t0, proof.Height, cd.now) {
+			continue
+		}
+		k.Count("oracleDfwd.evaluated", 1)
+		returnedByP := map[string]bool{}
+		for _, e := range win {
+			if e.Kind == "reply" && e.Prov == P.desc.ID && e.lb != nil && e.Height > proof.Height {
+				returnedByP[fmt.Sprintf("%d/%s", e.Height, e.Hash)] = true
+			}
+		}
+		evOK := false
+		for _, e := range win {
+			if e.Kind == "evidence" && e.Prov != P.desc.ID && e.ev != nil && returnedByP[fmt.Sprintf("%d/%s", e.Height, e.Hash)] {
+				evOK = true
+			}
+		}
+		var problems []string
+		if !errors.Is(err, light.ErrLightClientAttack) {
+			problems = append(problems, fmt.Sprintf("the call returned %q instead of the attack error", fmt.Sprint(err)))
+		}
+		if len(fresh) > 0 {
+			problems = append(problems, fmt.Sprintf("%d header(s) were stored", len(fresh)))
+		}
+		if !evOK {
+			problems = append(problems, "no witness was handed evidence naming the primary's block")
+		}
+		if len(problems) == 0 {
+			k.Count("oracleDfwd.attack_reported_with_evidence", 1)
+			continue
+		}
+		k.Violation("forward-lunatic-contradicting-witness-not-handled-as-attack",
+			fmt.Sprintf("%s: primary p%d's header at height %d has time %s; honest witness p%d, whose chain ends below that height, returned its block at height %d with time %s (not before it) and can back that block by valid adjacent steps from the common trusted height %d - a lower block that is not older contradicts the primary's header - yet %s",
+				cd.Op, P.desc.ID, th, tf.Format(time.RFC3339Nano), W.desc.ID, proof.Height, proof.lb.Time.Format(time.RFC3339Nano), t0, strings.Join(problems, "; ")),
+			x.witness(ci, map[string]interface{}{"error_returned": fmt.Sprint(err), "stored": len(fresh), "trust_level": fmt.Sprintf("%d/%d", sc.desc.TrustNum, sc.desc.TrustDen)}, s0))
+		return
+	}
 }
